@@ -26,6 +26,24 @@ extern "C" int h_m2s(unsigned d, double* re, double* im, double* o){
   gsl_matrix_complex_free(m);
   return rc;
 }
+// the same matrix presented as a d x d block (offset off,off) of a D x D matrix: row stride tda = D != d
+extern "C" int h_m2s_view(unsigned d, unsigned D, unsigned off, double* junk, double* re, double* im, double* o){
+  gsl_matrix_complex* big = gsl_matrix_complex_alloc(D,D);
+  int rc=0;
+  try{
+    for(unsigned i=0;i<D;i++) for(unsigned j=0;j<D;j++)
+      gsl_matrix_complex_set(big,i,j,gsl_complex_rect(junk[2*(i*D+j)],junk[2*(i*D+j)+1]));
+    for(unsigned i=0;i<d;i++) for(unsigned j=0;j<d;j++)
+      gsl_matrix_complex_set(big,off+i,off+j,gsl_complex_rect(re[i*d+j],im[i*d+j]));
+    gsl_matrix_complex v = *big;           // what gsl_matrix_complex_submatrix(big,off,off,d,d).matrix contains
+    v.size1 = d; v.size2 = d; v.owner = 0; v.data = big->data + 2*(off*big->tda+off);
+    SU_vector V(&v);
+    if(V.Dim()!=d) rc=2;
+    for(unsigned k=0;k<d*d;k++) o[k]=V[k];
+  }catch(...){ rc=1; }
+  gsl_matrix_complex_free(big);
+  return rc;
+}
 extern "C" int h_components(unsigned d, double* a, double* o){
   try{
     SU_vector A(d,a);
@@ -59,9 +77,13 @@ extern "C" int h_linop(unsigned op, unsigned d, double* a, double* b, double s, 
     return 0;
   }catch(...){ return 1; }
 }
-extern "C" int h_eq(unsigned d1, unsigned d2, double* a, double* b){
+// mode bit 0: the left operand owns its storage (copy), otherwise it views the caller's buffer; bit 1: same for the right operand
+extern "C" int h_eq(unsigned d1, unsigned d2, double* a, double* b, unsigned mode){
   try{
     SU_vector A(d1,a), B(d2,b);
-    return (A==B) ? 10 : 11;
+    SU_vector Ao(A), Bo(B);
+    const SU_vector& L = (mode&1) ? Ao : A;
+    const SU_vector& R = (mode&2) ? Bo : B;
+    return (L==R) ? 10 : 11;
   }catch(...){ return 1; }
 }
